@@ -454,7 +454,7 @@ func (c *Ctx) FreshInternal(label string, k types.BasicKind) *Sym {
 func (c *Ctx) Reach(label string) { c.reached[label] = true }
 
 // finalModel obtains values for all nondets (and extra terms) under the current pc.
-func (c *Ctx) finalModel(extra []*sym.Term) (smt.Model, bool) {
+func (c *Ctx) finalModel(extra []*sym.Term) (smt.Model, smt.Result) {
 	c.flushPC()
 	var want []*sym.Term
 	for _, n := range c.nondets {
@@ -467,13 +467,13 @@ func (c *Ctx) finalModel(extra []*sym.Term) (smt.Model, bool) {
 	}
 	if len(want) == 0 {
 		r, _ := c.S.Check(nil, nil)
-		return smt.Model{}, r == smt.Sat
+		return smt.Model{}, r
 	}
 	r, m := c.S.Check(nil, want)
 	if r != smt.Sat {
-		return nil, false
+		return nil, r
 	}
-	return m, true
+	return m, smt.Sat
 }
 
 func renderModelValue(n Nondet, v smt.Value) string {
